@@ -119,7 +119,7 @@ M('pf-frame-not-wrapped', ['C03'], F, "            return {'main': processed_fra
 M('pf-wrapper-no-frame', ['C03'], F, "            return lambda: None if (f := processed_frames()) is None else {'main': f} if isinstance(f, Frame) else f", "            return lambda: None if (f := processed_frames()) is None else f", ['C03.R1'])
 M('mqsend-eager-outgoing', ['C03'], MQ, "        metrics = None\n\n        if frames is None or self.sender is None:", "        metrics = None\n        outgoing()\n\n        if frames is None or self.sender is None:", ['C03.R2'])
 M('maybe-evaluates-early', ['C03'], Z, "            if (not do_send or not clients) and not push:\n                ret = False\n\n            elif not isinstance(topicmsgs, dict):", "            if not isinstance(topicmsgs, dict) and False:\n                ret = False\n\n            elif not isinstance(topicmsgs, dict):", ['C03.R2', 'C04.R3'])
-M('mqsend-none-still-sends', ['C03'], MQ, "        if frames is None or self.sender is None:\n            outgoing()\n            outgone()\n\n            return True", "        if self.sender is None:\n            outgoing()\n            outgone()\n\n            return True", ['C03.R3', 'C03.R2'])
+M('mqsend-none-still-sends', ['C03'], MQ, "        if frames is None or self.sender is None:\n            outgoing()\n            outgone()\n", "        if self.sender is None:\n            outgoing()\n            outgone()\n", ['C03.R3', 'C03.R2'])
 M('maybe-none-consumes-id', ['C03'], Z, "                if (topicmsgs := topicmsgs()) is None:  # if no frames to send just-in-time then say that frames have been sent\n                    ret = True", "                if (topicmsgs := topicmsgs()) is None:  # if no frames to send just-in-time then say that frames have been sent\n                    ret = True\n                    self.min_send_id = msg_id + 1", ['C03.R3'])
 M('maybe-empty-not-sent', ['C03'], Z, "            if ret is not None:\n                return ret\n\n            if balance:", "            if ret is not None:\n                return ret\n\n            if not topicmsgs:\n                return True\n\n            if balance:", ['C03.R4', 'C02.R3'])
 M('heartbeat-only-when-nonempty', ['C03'], Z, "            for pub in pubs:  # publish heartbeat / topics informative message\n                pub.send_multipart(msg_topics)", "            for pub in pubs if topicmsgs else ():  # publish heartbeat / topics informative message\n                pub.send_multipart(msg_topics)", ['C03.R4'])
@@ -302,7 +302,7 @@ M('fmtgray-wrong-accessor', ['C17'], UT, "            elif action == 'fmtgray':\
 
 # -------------------------------------------------------------------------------------------------------- C13 / C14
 
-M('rolllog-D4-shape', ['C13'], RL, """        if (logfiles := self.logfiles) and int(ts * 1_000_000) <= (last_us := int(logfiles[-1].timestamp * 1_000_000)):""", """        if False and (logfiles := self.logfiles) and int(ts * 1_000_000) <= (last_us := int(logfiles[-1].timestamp * 1_000_000)):""", ['C13.R1'])
+M('rolllog-D4-shape', ['C13'], RL, """        if (logfiles := self.logfiles) and int(ts * 1_000_000) <= (last_us := round(logfiles[-1].timestamp * 1_000_000)):""", """        if False and (logfiles := self.logfiles) and int(ts * 1_000_000) <= (last_us := round(logfiles[-1].timestamp * 1_000_000)):""", ['C13.R1'])
 M('rolllog-bump-not-above', ['C13'], RL, "            ts = (last_us + 1.5) / 1_000_000\n", "            ts = (last_us - 1.5) / 1_000_000\n", ['C13.R1'])
 M('rolllog-name-uses-other-ts', ['C13'], RL, "fnm_from_dats(dt, ts, self.tzstr, self.prefix, self.suffix)), 0)", "fnm_from_dats(dt, dt.timestamp(), self.tzstr, self.prefix, self.suffix)), 0)", ['C13.R1'])
 M('rolllog-no-prune-after-write', ['C13'], RL, "            if logfiles_size > self.total_size:\n                self.prune_logfiles()", "            if logfiles_size > self.total_size and flush:\n                self.prune_logfiles()", ['C13.R2'])
@@ -362,9 +362,9 @@ M('videoin-meta-raw-src', ['C15'], VI, "'src': vid.source, 'src_fps': vid.fps", 
 M('videoout-logs-config-outputs', ['C15'], VO, "        default_options         = {'bgr': config.bgr, 'fps': config.fps, 'segtime': config.segtime}", "        default_options         = {'bgr': config.bgr, 'fps': config.fps, 'segtime': config.segtime}\n        logger.info(f'video outputs: {config.outputs}')", ['C15.R1'])
 M('videowriter-serve-raw', ['C15'], VO, "            logger.info(f'video serve: {hide_uri_users_and_pwds(output)}  ({self.fps:.1f} fps)')", "            logger.info(f'video serve: {output}  ({self.fps:.1f} fps)')", ['C15.R1'])
 M('presign-message-raw', ['C15'], VI, "raise ValueError(f'Failed to generate presigned URL for S3 source {self.source!r}: {hide_uri_users_and_pwds(str(e))}')", "raise ValueError(f'Failed to generate presigned URL for S3 source {self.source!r}: {e}')", ['C15.R1'])
-M('regex-pwd-stops-at-slash', ['C15'], UTL, "re_sub_uri_user_and_pwd = re.compile(r'\\b ( [a-zA-Z][a-zA-Z0-9+\\-.]* :// ) [^:@]+: [^@]* ( @ [^\\s/?#]+ )', re.VERBOSE)", "re_sub_uri_user_and_pwd = re.compile(r'\\b ( [a-zA-Z][a-zA-Z0-9+\\-.]* :// ) [^:@]+: [^@/]* ( @ [^\\s/?#]+ )', re.VERBOSE)", ['C15.R3'])
-M('regex-keeps-user', ['C15'], UTL, "re_sub_uri_user_and_pwd = re.compile(r'\\b ( [a-zA-Z][a-zA-Z0-9+\\-.]* :// ) [^:@]+: [^@]* ( @ [^\\s/?#]+ )', re.VERBOSE)", "re_sub_uri_user_and_pwd = re.compile(r'\\b ( [a-zA-Z][a-zA-Z0-9+\\-.]* :// [^:@]+: ) [^@]* ( @ [^\\s/?#]+ )', re.VERBOSE)", ['C15.R3'])
-M('regex-user-class-narrow', ['C15'], UTL, "re_sub_uri_user_and_pwd = re.compile(r'\\b ( [a-zA-Z][a-zA-Z0-9+\\-.]* :// ) [^:@]+: [^@]* ( @ [^\\s/?#]+ )', re.VERBOSE)", "re_sub_uri_user_and_pwd = re.compile(r'\\b ( [a-zA-Z][a-zA-Z0-9+\\-.]* :// ) [^:@!]+: [^@]* ( @ [^\\s/?#]+ )', re.VERBOSE)", ['C15.R3'])
+M('regex-pwd-stops-at-slash', ['C15'], UTL, "re_sub_uri_user_and_pwd = re.compile(r'\\b ( [a-zA-Z][a-zA-Z0-9+\\-.]* :// ) [^:@]*: [^@]* ( @ [^\\s/?#]* )', re.VERBOSE)", "re_sub_uri_user_and_pwd = re.compile(r'\\b ( [a-zA-Z][a-zA-Z0-9+\\-.]* :// ) [^:@]*: [^@/]* ( @ [^\\s/?#]* )', re.VERBOSE)", ['C15.R3'])
+M('regex-keeps-user', ['C15'], UTL, "re_sub_uri_user_and_pwd = re.compile(r'\\b ( [a-zA-Z][a-zA-Z0-9+\\-.]* :// ) [^:@]*: [^@]* ( @ [^\\s/?#]* )', re.VERBOSE)", "re_sub_uri_user_and_pwd = re.compile(r'\\b ( [a-zA-Z][a-zA-Z0-9+\\-.]* :// [^:@]*: ) [^@]* ( @ [^\\s/?#]* )', re.VERBOSE)", ['C15.R3'])
+M('regex-user-class-narrow', ['C15'], UTL, "re_sub_uri_user_and_pwd = re.compile(r'\\b ( [a-zA-Z][a-zA-Z0-9+\\-.]* :// ) [^:@]*: [^@]* ( @ [^\\s/?#]* )', re.VERBOSE)", "re_sub_uri_user_and_pwd = re.compile(r'\\b ( [a-zA-Z][a-zA-Z0-9+\\-.]* :// ) [^:@!]*: [^@]* ( @ [^\\s/?#]* )', re.VERBOSE)", ['C15.R3'])
 M('mask-replacement-keeps-all', ['C15'], UTL, "    return re_sub_uri_user_and_pwd.sub(r'\\g<1>****\\g<2>', text)", "    return re_sub_uri_user_and_pwd.sub(r'\\g<0>', text)", ['C15.R3'])
 
 # ------------------------------------------------------------------------------------------- later additions (zmq / mq)
@@ -410,7 +410,7 @@ M('seed2-C01-new_recv-aliases-template', ['C01', 'C02', 'C03', 'C07'], Z, "     
 M('seed2-C05-shared-unique-id', ['C04', 'C05'], Z, "            self.unique_id   = rndstr(12, 64)  # unique id for connection", "            self.unique_id   = client_id  # unique id for connection", ['C04.R6', 'C05.R7'])
 M('seed2-C04-stall-gate-per-client-id', ['C04'], Z, "                elif not requested and not ephemeral:  # if at least one non-ephemeral connection hasn't requested yet then we don't send\n                    do_send = False", "                elif client_id not in client_ids:  # if at least one non-ephemeral connection hasn't requested yet then we don't send\n                    do_send = False", ['C04.R2'])
 M('seed2-C12-duplicate-id-partial', ['C12'], CLI, "    for _, config, _ in filters:  # error on duplicate ids\n        if config.id in config_by_id:", "    for _, config, _ in filters[:1]:  # error on duplicate ids\n        if config.id in config_by_id:", ['C12.R1'])
-M('seed2-C13-float-compare', ['C13'], RL, "        if (logfiles := self.logfiles) and int(ts * 1_000_000) <= (last_us := int(logfiles[-1].timestamp * 1_000_000)):", "        if (logfiles := self.logfiles) and ts <= logfiles[-1].timestamp and (last_us := int(logfiles[-1].timestamp * 1_000_000)) is not None:", ['C13.R1'])
+M('seed2-C13-float-compare', ['C13'], RL, "        if (logfiles := self.logfiles) and int(ts * 1_000_000) <= (last_us := round(logfiles[-1].timestamp * 1_000_000)):", "        if (logfiles := self.logfiles) and ts <= logfiles[-1].timestamp and (last_us := round(logfiles[-1].timestamp * 1_000_000)) is not None:", ['C13.R1'])
 M('seed2-C17-box-colour-cached', ['C17'], UT, "        elif frame.is_bgr:\n            c = c[::-1]\n", "        elif frame.is_bgr:\n            c = c[::-1]\n        xform.cvcolor = c\n", ['C17.R4'])
 M('seed2-C10-pickle-drops-image', ['C10'], FR, "        return (Frame.unreduce, (image := self.__image, self.__data, self.__jpg, self.__shapef,", "        return (Frame.unreduce, (image := (self.__image if not self.__jpg else False), self.__data, self.__jpg, self.__shapef,", ['C10.R7'])
 M('seed2-C15-mask-after-strip', ['C15'], VO, "            logger.info(f'video create: {hide_uri_users_and_pwds(output)[7:]}  ({self.fps:.1f} fps)')", "            logger.info(f'video create: {hide_uri_users_and_pwds(output[7:])}  ({self.fps:.1f} fps)')", ['C15.R1'])
@@ -444,7 +444,7 @@ M('start-skipped-on-empty-facets', ['C18'], F, "        if hasattr(self, 'emitte
 M('recv-D10-shape', ['C01', 'C07'], Z, "else max(state.msg_id, self.prev_id + 1)  # the same state", "else state.msg_id  # the same state", ['C01.R9', 'C07.R6'])
 M('recv-entry-min-instead-of-max', ['C01'], Z, "else max(state.msg_id, self.prev_id + 1)  # the same state", "else min(state.msg_id, self.prev_id + 1)  # the same state", ['C01.R9'])
 M('mask-D11-shape-user-nonempty', ['C15'], UTL, "re_sub_uri_user_and_pwd = re.compile(r'\\b ( [a-zA-Z][a-zA-Z0-9+\\-.]* :// ) [^:@]*:", "re_sub_uri_user_and_pwd = re.compile(r'\\b ( [a-zA-Z][a-zA-Z0-9+\\-.]* :// ) [^:@]+:", ['C15.R3'])
-M('mask-pwd-bounded-length', ['C15'], UTL, ":// [^:@]*: ) [^@]* ( @ [^\\s/?#]+ )', re.VERBOSE)", ":// [^:@]*: ) [^@]{1,64} ( @ [^\\s/?#]+ )', re.VERBOSE)", ['C15.R3'])
+M('mask-pwd-bounded-length', ['C15'], UTL, ":// [^:@]*: ) [^@]* ( @ [^\\s/?#]* )', re.VERBOSE)", ":// [^:@]*: ) [^@]{1,64} ( @ [^\\s/?#]* )', re.VERBOSE)", ['C15.R3'])
 M('imagein-D12-shape', ['C15'], II, "hide_uri_users_and_pwds('file://' + path)", "hide_uri_users_and_pwds(path)", ['C15.R1'])
 M('seed3-C02-topic-rename-cascades', ['C02'], Z, """                    for topic, frame in (recvd.items() if (recvd := sender.recvd) is not None else ()):
                         if frame is not None:
@@ -452,7 +452,7 @@ M('seed3-C02-topic-rename-cascades', ['C02'], Z, """                    for topi
                                 raise RuntimeError(f'duplicate topic {topic!r} from: {sender.server_id}  @ {sender.addr}')
 
                             data[topic] = frame
-""", """                    frames = {topic: frame for topic, frame in (sender.recvd or {}).items() if frame is not None}
+""", """                    frames = {topic: frame for topic, frame in ((recvd := sender.recvd) or {}).items() if frame is not None}
 
                     for src, dst in topic_map.items():
                         if src in frames:
@@ -472,9 +472,9 @@ M('write-counts-twice', ['C13'], RL, "self.logfiles_size = logfiles_size = self.
 M('write-never-rolls', ['C13'], RL, "            if logfile_size >= self.file_size:\n                write_file.close()\n\n                self.write_file = None\n\n            elif", "            if False:\n                write_file.close()\n\n                self.write_file = None\n\n            elif", ['C13.R6'])
 M('write-lists-before-open', ['C13'], RL, "                try:\n                    write_file = self.write_file = open((logfile := self.new_logfile(timestamp)).path, 'wb')\n", "                self.logfiles.append(logfile := self.new_logfile(timestamp))\n                try:\n                    write_file = self.write_file = open(logfile.path, 'wb')\n", ['C13.R6'])
 M('read-index-off-by-one', ['C13'], RL, "            if (read_idx := self.read_idx) >= (nlogfiles := len(logfiles := self.logfiles)):\n                if not autorefresh:", "            if (read_idx := self.read_idx) > (nlogfiles := len(logfiles := self.logfiles)):\n                if not autorefresh:", ['C13.R7'])
-M('read-gives-up-closes', ['C13'], RL, "                        if (read_idx := self.read_idx + 1) >= (nlogfiles := len(logfiles := self.logfiles)):\n                            return None", "                        if (read_idx := self.read_idx + 1) >= (nlogfiles := len(logfiles := self.logfiles)):\n                            read_file.close()\n                            self.read_file = None\n                            return None", ['C13.R7'])
+M('read-gives-up-closes', ['C13'], RL, "                        if (read_idx := self.read_idx + (self.read_file is not None)) >= (nlogfiles := len(logfiles := self.logfiles)):  # the refresh keeps the open file if it is still listed (go one past it), otherwise it already moved on to the first newer file (continue there, not one past it)\n                            return None", "                        if (read_idx := self.read_idx + (self.read_file is not None)) >= (nlogfiles := len(logfiles := self.logfiles)):\n                            read_file.close()\n                            self.read_file = None\n                            return None", ['C13.R7'])
 M('read-line-strips-two', ['C13'], RL, "            data = data[:-1].decode()", "            data = data[:-2].decode()", ['C13.R7'])
-M('read-never-refreshes', ['C13'], RL, "                        autorefresh = False\n\n                        self.refresh_logfiles()\n\n                        if (read_idx := self.read_idx + 1)", "                        autorefresh = False\n\n                        if (read_idx := self.read_idx + 1)", ['C13.R7'])
+M('read-never-refreshes', ['C13'], RL, "                        autorefresh = False\n\n                        self.refresh_logfiles()\n\n                        if self.read_file is not None and (data :=", "                        autorefresh = False\n\n                        if self.read_file is not None and (data :=", ['C13.R7'])
 M('scan-pattern-three-digit-year', ['C13', 'C14'], RL, "r'(\\d+)_\\d{4}-\\d{2}-\\d{2}_", "r'(\\d+)_\\d{3}-\\d{2}-\\d{2}_", ['C13.R8', 'C14.R7'])
 M('scan-timestamp-milliseconds', ['C13', 'C14'], RL, "logfiles.append(RollLogFile(int(m.group(1)) / 1_000_000, path", "logfiles.append(RollLogFile(int(m.group(1)) / 1_000, path", ['C13.R8', 'C14.R7'])
 M('scan-not-sorted', ['C13'], RL, "        logfiles.sort()\n", "", ['C13.R8'])
@@ -573,7 +573,7 @@ M('maxsize-both-uses-max', ['C17'], UT, "                    h = int(h * (s := m
 M('maxsize-height-by-height-ratio', ['C17'], UT, "                if not hgt:\n                    h = int(h * width / w)\n                elif not wgt:\n                    w = int(w * height / h)\n                else:\n                    h = int(h * (s := min(", "                if not hgt:\n                    h = int(h * height / h)\n                elif not wgt:\n                    w = int(w * height / h)\n                else:\n                    h = int(h * (s := min(", ['C17.R5'])
 M('maxsize-cases-swapped', ['C17'], UT, "                if not hgt:\n                    h = int(h * width / w)\n                elif not wgt:\n                    w = int(w * height / h)\n                else:\n                    h = int(h * (s := min(", "                if hgt:\n                    h = int(h * width / w)\n                elif not wgt:\n                    w = int(w * height / h)\n                else:\n                    h = int(h * (s := min(", ['C17.R5'])
 M('size-width-height-swapped', ['C17'], UT, "                        xform.width  = int(width)\n                        xform.height = int(height)", "                        xform.width  = int(height)\n                        xform.height = int(width)", ['C17.R6'])
-M('size-aspect-inverted', ['C17'], UT, "                        if aspect != 'x':\n                            xform.aspect = False", "                        if aspect == 'x':\n                            xform.aspect = False", ['C17.R6'])
+M('size-aspect-inverted', ['C17'], UT, "                        if aspect == '+':\n                            xform.aspect = False", "                        if aspect != '+':\n                            xform.aspect = False", ['C17.R6'])
 M('box-fields-shifted', ['C17'], UT, "                        xform.x      = float(x)\n                        xform.y      = float(y)", "                        xform.x      = float(y)\n                        xform.y      = float(x)", ['C17.R6'])
 M('hist-fix-branch-off-by-two', ['C16'], BR, "                                    if len(bucket_counts) > len(explicit_bounds) + 1:\n                                        bucket_counts = bucket_counts[:len(explicit_bounds) + 1]", "                                    if len(bucket_counts) > len(explicit_bounds) - 1:\n                                        bucket_counts = bucket_counts[:len(explicit_bounds) + 1]", ['C16.R4'])
 M('hist-fix-branches-swapped', ['C16'], BR, "                                    if len(bucket_counts) > len(explicit_bounds) + 1:\n                                        bucket_counts = bucket_counts[:len(explicit_bounds) + 1]", "                                    if len(bucket_counts) < len(explicit_bounds) + 1:\n                                        bucket_counts = bucket_counts[:len(explicit_bounds) + 1]", ['C16.R4'])
@@ -585,7 +585,7 @@ M('callback-filter-topic-always', ['C03'], MQ, "            if self.outs_filter 
 M('read-D15-shape', ['C13'], RL, "if (read_idx := self.read_idx + (self.read_file is not None)) >= (nlogfiles", "if (read_idx := self.read_idx + 1) >= (nlogfiles", ['C13.R4'])
 
 # ------------------------------------------------------------------------------------------------------ round 5 seeds
-M('seed5-C08-outputs-timeout-skips-deadline', ['C08'], F, "                if outputs_timeout is not None and (timeout := timeout - (time_ns() - t_start) // 1_000_000) <= 0:\n                    break", "                if outputs_timeout is not None and (timeout := timeout - (time_ns() - t_start) // 1_000_000) <= 0:\n                    return", ['C08.R4'])
+M('seed5-C08-outputs-timeout-skips-deadline', ['C08'], F, "            if (outputs_timeout := outputs_timeout - POLL_TIMEOUT_MS) <= 0:\n                break", "            if (outputs_timeout := outputs_timeout - POLL_TIMEOUT_MS) <= 0:\n                return", ['C08.R4'])
 M('seed5-C09-ro-view-stale-jpg', ['C09', 'C10'], FR, "new                   = Frame(image := self.image.copy(), self, self.__shapef[1])\n        image.flags.writeable = False", "new                   = Frame(image := self.__image.view(), self, self.__shapef[1])\n        image.flags.writeable = False", ['C09.R9', 'C10.R3'])
 M('seed5-C13-bin-size-counts-items', ['C13'], RL, "            if isinstance(data, (bytes, bytearray)):\n                size = len(data)\n            else:\n                size = (data := memoryview(data)).nbytes", "            if not isinstance(data, (bytes, bytearray)):\n                data = memoryview(data)\n\n            size = len(data)", ['C13.R6'])
 M('seed5-C17-global-xforms-run-first', ['C17'], UT, "            topic_xforms = {t: adict(topic=t, frame=f, xforms=[]) for t, f in frames.items() if f.has_image}", "            topic_xforms = {t: adict(topic=t, frame=f, xforms=[x for x in xforms if x.topics is None]) for t, f in frames.items() if f.has_image}", ['C17.R7'])
@@ -625,7 +625,7 @@ M('fini-D20-shape', ['C18'], F, "        if hasattr(self, 'emitter') and self.em
 M('facets-D21-shape-normalise-before-flatten', ['C18'], LN, "    data = flatten_dict(data)\n    data = normalize_facet_keys(data)", "    data = normalize_facet_keys(data)\n    data = flatten_dict(data)", ['C18.R6'])
 M('facets-D21-shape-no-keyword-fallback', ['C18'], LN, "        if not k.isidentifier() or iskeyword(k) or k in (\"schemaURL\", \"type\"):\n            k = f\"f_{k}\"\n", "", ['C18.R6'])
 M('facets-key-not-str', ['C18'], LN, "        k = str(k).lstrip(\"_\")  ", "        k = k.lstrip(\"_\")  ", ['C18.R6'])
-M('balanced-D24-shape', ['C05', 'C04'], Z, "out_nrequested + (requested and not ephemeral),", "out_nrequested + requested,", ['C05.R10'])
+M('balanced-D24-shape', ['C05'], Z, "out_nrequested + (requested and not ephemeral),", "out_nrequested + requested,", ['C05.R10'])
 M('prefix-D25-shape', ['C02', 'C03'], Z, "                    if topic and not sender.subscribed_all and topic not in sender.recvd_new:  # zmq.SUBSCRIBE matches prefixes, '/a/' also lets '/a/b/' through\n                        topic = ''  # not subscribed to, only the id and the topic list count\n", "", ['C02.R5', 'C03.R11'])
 M('prefix-guard-only-when-subscribed-all', ['C02'], Z, "if topic and not sender.subscribed_all and topic not in sender.recvd_new:", "if topic and sender.subscribed_all and topic not in sender.recvd_new:", ['C02.R5'])
 M('loop-D26-shape-propagate-swallowed', ['C08'], F, "                                except Filter.PropagateError:  # obeying another filter's error exit is not an error of the loop to log and carry on from\n                                    raise\n", "", ['C08.R1'])
